@@ -5,90 +5,61 @@
    component types / interfaces, extends, binding targets and prototypes, finals, constructors,
    module procedures of generic interfaces) with the entity FORD's correlate() puts there; evs is
    the unit as the event sequence of FORD's traversal; every scope has dictionaries of its own,
-   copied from its host's when it is entered (FortranCodeUnit.correlate after the repair of the two
-   defects this property found).
-   A submodule is a unit whose dictionaries are updated with those of its parent submodule or
-   ancestor module (the units it depends on come first in evs).
+   copied from its host's when it is entered; an abstract interface of the scope (declared or
+   use-associated) removes the host's procedure of the same name from the copy.
+   A submodule is a unit whose host is its parent submodule or ancestor module (the units it
+   depends on come first in evs).
    Spec: [spec evs] = the same slots resolved by Fortran's rules (innermost enclosing scope that
    declares the name or obtains it by use association; nothing from sibling or contained scopes;
-   the host of a submodule is its parent submodule or ancestor module).
+   the host of a submodule is its parent submodule or ancestor module; the names of procedures
+   and abstract interfaces are identifiers of one kind, so the innermost scope that has the name
+   in either role decides which of the two it is).
    [scopes_legal]: in one scope a use-associated name is not declared again and not obtained twice
    for different entities (a legality condition of Fortran, decidable). *)
 From Ford Require Import Base.Str Sem.Scope Sem.ScopeProofs.
 
 (* Full statement: for every well-formed, legal unit (any nesting depth, any number of scopes and
    slots, names reused freely across scopes, chains of submodules) the model's slots are exactly
-   the Spec's.  Two defects remain, so it is still FALSE of the code (C07_refuted_abs_over_proc,
-   C07_refuted_sub_shadow). *)
+   the Spec's.  No region is excluded: the four defects that made this false of the code are
+   repaired (their witnesses are the fixed examples below). *)
 Definition C07_statement : Prop :=
   forall evs, wf_events evs = true -> scopes_legal evs = true ->
   forall r, In r (correlate evs) <-> In r (spec evs).
 
-(* [sub_shadow_free]: no own declaration of a submodule bears a name visible in its host unit
-   (decidable; trivially true of units that are not submodules).
-   For every slot that is not a procedure(n) reference (types of variables and components,
-   extends, binding targets, finals, constructors, module procedures): no further region. *)
-Theorem C07_types_and_procedures : forall evs,
-  wf_events evs = true -> scopes_legal evs = true -> sub_shadow_free evs = true ->
-  forall r, r_look r <> LProcAbs -> (In r (correlate evs) <-> In r (spec evs)).
-Proof. exact types_and_procs_correct. Qed.
-Print Assumptions C07_types_and_procedures.
+Theorem C07_full : C07_statement.
+Proof. exact full_correct. Qed.
+Print Assumptions C07_full.
 
-(* Partial: all slots, when no procedure(n) reference sits where an abstract interface n of an
-   inner scope hides a procedure n of an outer scope (decidable, pins the remaining finding). *)
-Theorem C07_partial : forall evs,
-  wf_events evs = true -> scopes_legal evs = true -> sub_shadow_free evs = true -> procabs_consistent evs = true ->
-  forall r, In r (correlate evs) <-> In r (spec evs).
-Proof. exact partial_correct. Qed.
-Print Assumptions C07_partial.
+(* Former witness: module m; subroutine x; subroutine a with an abstract interface x of its own and
+   procedure(x), pointer :: p.  The slot of p holds a's abstract interface (it held the module
+   procedure). *)
+Theorem C07_fixed_abs_over_proc :
+  wf_events w_absproc = true /\ scopes_legal w_absproc = true /\
+  In {| r_scope := map s ["m"; "a"]%string; r_slot := SVar (s "p"); r_look := LProcAbs;
+        r_name := s "x"; r_ent := Some (map s ["m"; "a"; "x"]%string) |} (correlate w_absproc).
+Proof. exact fixed_abs_over_proc. Qed.
+Print Assumptions C07_fixed_abs_over_proc.
 
-(* What the code does in every legal unit, region included: the Spec with procedure(n) read as
-   "a visible procedure n, else a visible abstract interface n". *)
-Theorem C07_model_characterised : forall evs,
-  wf_events evs = true -> scopes_legal evs = true -> sub_shadow_free evs = true ->
-  forall r, In r (correlate evs) <-> In r (spec_procs_first evs).
-Proof. exact model_is_spec_procs_first. Qed.
-Print Assumptions C07_model_characterised.
+(* Former witness: module m with type t; submodule (m) s1 with a type t of its own and type(t) :: v.
+   The slot of v holds s1's t (it held the module's). *)
+Theorem C07_fixed_sub_shadow :
+  wf_events w_subshadow = true /\ scopes_legal w_subshadow = true /\
+  In {| r_scope := map s ["s1"]%string; r_slot := SVar (s "v"); r_look := LType;
+        r_name := s "t"; r_ent := Some (map s ["s1"; "t"]%string) |} (correlate w_subshadow).
+Proof. exact fixed_sub_shadow. Qed.
+Print Assumptions C07_fixed_sub_shadow.
 
-(* Witness: module m; subroutine x; subroutine a with an abstract interface x of its own and
-   procedure(x), pointer :: p.  The slot of p holds the module procedure, Fortran designates a's
-   abstract interface. *)
-Theorem C07_refuted_abs_over_proc :
-  refuted_by w_absproc {| r_scope := map s ["m"; "a"]%string; r_slot := SVar (s "p"); r_look := LProcAbs;
-                          r_name := s "x"; r_ent := Some (map s ["m"; "x"]%string) |}
-  /\ procabs_consistent w_absproc = false /\ sub_shadow_free w_absproc = true.
-Proof. exact refuted_abs_over_proc. Qed.
-Print Assumptions C07_refuted_abs_over_proc.
-
-(* Witness: module m with type t; submodule (m) s1 with a type t of its own and type(t) :: v.
-   The slot of v holds the module's t, Fortran designates s1's. *)
-Theorem C07_refuted_sub_shadow :
-  refuted_by w_subshadow {| r_scope := map s ["s1"]%string; r_slot := SVar (s "v"); r_look := LType;
-                            r_name := s "t"; r_ent := Some (map s ["m"; "t"]%string) |}
-  /\ sub_shadow_free w_subshadow = false /\ procabs_consistent w_subshadow = true.
-Proof. exact refuted_sub_shadow. Qed.
-Print Assumptions C07_refuted_sub_shadow.
-
-Theorem C07_statement_refuted : ~ C07_statement.
-Proof.
-  intros H. destruct refuted_abs_over_proc as [(Hwf & Hl & Hin & Hn) _]. apply Hn. now apply (H _ Hwf Hl).
-Qed.
-Print Assumptions C07_statement_refuted.
-
-(* The witnesses of the two repaired defects (a contained procedure did not shadow a host
-   procedure; a type local to one procedure was visible in its sibling and in the host) now get
-   Fortran's answer in the model. *)
+(* The witnesses of the two defects repaired first (a contained procedure did not shadow a host
+   procedure; a type local to one procedure was visible in its sibling and in the host). *)
 Theorem C07_fixed_proc_shadow :
-  wf_events w_shadow = true /\ scopes_legal w_shadow = true /\ sub_shadow_free w_shadow = true /\
-  procabs_consistent w_shadow = true /\
+  wf_events w_shadow = true /\ scopes_legal w_shadow = true /\
   In {| r_scope := map s ["m"; "a"]%string; r_slot := SVar (s "p"); r_look := LProcAbs;
         r_name := s "helper"; r_ent := Some (map s ["m"; "a"; "helper"]%string) |} (correlate w_shadow).
 Proof. exact fixed_proc_shadow. Qed.
 Print Assumptions C07_fixed_proc_shadow.
 
 Theorem C07_fixed_sibling_leak :
-  wf_events w_leak = true /\ scopes_legal w_leak = true /\ sub_shadow_free w_leak = true /\
-  procabs_consistent w_leak = true /\
+  wf_events w_leak = true /\ scopes_legal w_leak = true /\
   In {| r_scope := map s ["m"; "b"]%string; r_slot := SVar (s "y"); r_look := LType;
         r_name := s "t"; r_ent := None |} (correlate w_leak) /\
   In {| r_scope := map s ["m"]%string; r_slot := SVar (s "z"); r_look := LType;
@@ -107,11 +78,10 @@ Proof. exact unresolved_stays_text. Qed.
 Print Assumptions C07_unresolved_stays_text.
 
 (* non-vacuity: a unit with every kind of slot, three nesting levels, interface bodies, a
-   use-associated name and undeclared names satisfies the hypotheses of C07_partial; 24 slots,
+   use-associated name and undeclared names satisfies the hypotheses of C07_full; 24 slots,
    some resolved, some not, some of them procedure(n) references *)
 Theorem C07_example_hypotheses :
-  wf_events ex_unit = true /\ scopes_legal ex_unit = true /\ sub_shadow_free ex_unit = true /\
-  procabs_consistent ex_unit = true /\
+  wf_events ex_unit = true /\ scopes_legal ex_unit = true /\
   length (correlate ex_unit) = 24 /\
   existsb (fun r => match r_ent r with Some _ => true | None => false end) (correlate ex_unit) = true /\
   existsb (fun r => match r_ent r with Some _ => false | None => true end) (correlate ex_unit) = true /\
@@ -123,8 +93,7 @@ Print Assumptions C07_example_hypotheses.
    s2: all hypotheses hold; s2 sees the module's t, lib's u through s1's USE (which hides the
    module's u), s1's procedure, and leaves an undeclared name as text *)
 Theorem C07_example_submodules :
-  wf_events ex_subs = true /\ scopes_legal ex_subs = true /\ sub_shadow_free ex_subs = true /\
-  procabs_consistent ex_subs = true /\
+  wf_events ex_subs = true /\ scopes_legal ex_subs = true /\
   In {| r_scope := map s ["s2"]%string; r_slot := SVar (s "x1"); r_look := LType; r_name := s "t";
         r_ent := Some (map s ["m"; "t"]%string) |} (correlate ex_subs) /\
   In {| r_scope := map s ["s2"]%string; r_slot := SVar (s "x2"); r_look := LType; r_name := s "u";
@@ -135,3 +104,19 @@ Theorem C07_example_submodules :
         r_ent := None |} (correlate ex_subs).
 Proof. exact ex_subs_hypotheses. Qed.
 Print Assumptions C07_example_submodules.
+
+(* non-vacuity for the single kind of procedure identifiers: in subroutine a of module m an
+   abstract interface x obtained by use association and an own abstract interface y hide the
+   module procedures x and y (procedure(x), procedure(y) resolve to the abstract interfaces, a
+   binding target x stays a string), the module procedure z stays visible, and the module itself
+   still sees its procedure x; [ent_of evs path slot] = the entity in that slot of [correlate evs] *)
+Theorem C07_example_hiding :
+  wf_events ex_hiding = true /\ scopes_legal ex_hiding = true /\
+  ent_of ex_hiding ["m"; "a"]%string (SVar (s "p")) = Some (Some (map s ["lib"; "x"]%string)) /\
+  ent_of ex_hiding ["m"; "a"]%string (SVar (s "q")) = Some (Some (map s ["m"; "a"; "y"]%string)) /\
+  ent_of ex_hiding ["m"; "a"]%string (SVar (s "r")) = Some (Some (map s ["m"; "z"]%string)) /\
+  ent_of ex_hiding ["m"; "a"]%string (SBindTarget (s "t") (s "b") 0) = Some None /\
+  ent_of ex_hiding ["m"; "a"]%string (SBindTarget (s "t") (s "c") 0) = Some (Some (map s ["m"; "z"]%string)) /\
+  ent_of ex_hiding ["m"]%string (SModproc (s "gg") 0) = Some (Some (map s ["m"; "x"]%string)).
+Proof. exact ex_hiding_facts. Qed.
+Print Assumptions C07_example_hiding.
